@@ -37,7 +37,7 @@ def main():
         if a == "--tier":
             tier = sys.argv[i + 1]
     meta = json.load(open(os.path.join(src, "meta.json")))
-    prop = meta["property"]
+    prop = meta.get("property") or meta["breaks_property"]
     props = props or [prop]
     patch = os.path.abspath(os.path.join(src, "patch.diff"))
     demo = os.path.abspath(os.path.join(src, "demo.rs"))
@@ -93,8 +93,9 @@ def main():
             assert out.strip() == "", "/repo not restored: " + out
     dst = os.path.join(ROOT, "seeded", sid)
     os.makedirs(dst, exist_ok=True)
-    shutil.copy(patch, os.path.join(dst, "patch.diff"))
-    shutil.copy(demo, os.path.join(dst, "demo.rs"))
+    if os.path.abspath(dst) != os.path.abspath(src):
+        shutil.copy(patch, os.path.join(dst, "patch.diff"))
+        shutil.copy(demo, os.path.join(dst, "demo.rs"))
     meta_out = {
         "id": sid,
         "breaks_property": prop,
